@@ -260,6 +260,9 @@ def load(repo=None):
     if p.returncode != 0:
         raise AnchorMissing("source tree could not be parsed: " + p.stderr.strip())
     f = Facts(json.loads(p.stdout))
+    from . import normalise
+
+    normalise.apply(f)
     _CACHE[repo] = f
     return f
 
